@@ -227,7 +227,11 @@ def main(tier: str) -> int:
     cases = []
     for _ in range(90 if tier == "quick" else 600):
         nr, nc = rng.randint(0, 4), rng.randint(0, 6)
-        kind = rng.choice(["bit_to_int", "bit_to_int_p", "gray_to_bit", "bit_to_gray", "sg_decode", "gc_decode"])
+        kind = rng.choice(["bit_to_int", "bit_to_int_p", "gray_to_bit", "bit_to_gray", "sg_decode", "gc_decode", "int_to_bit", "int_to_bit_p"])
+        if kind.startswith("int_to_bit"):
+            w_ = rng.randint(0, 5)
+            cases.append((kind, np.array([[w_] + [rng.randint(0, 40) for _ in range(nr)]], dtype=np.int64)))      # [width, codes...] in one row
+            continue
         if kind in ("bit_to_int_p", "sg_decode", "gc_decode"):
             nc = min(nc, len(pw) + 1)
         lo, hi = (0, 1) if kind != "gray_to_bit" or rng.random() < 0.5 else (-1, 2)      # logical_xor reads any non-zero entry as True
@@ -246,6 +250,12 @@ def main(tier: str) -> int:
             if kind == "bit_to_gray":
                 r = GrayCode.bit_to_gray(M)
                 return [int(r.shape[1])] + [[int(v) for v in row] for row in r]
+            if kind in ("int_to_bit", "int_to_bit_p"):
+                w_, xs_ = int(M[0, 0]), np.array(M[0, 1:], dtype=np.int64)
+                r = SamplingGrid.int_to_bit(xs_, None if kind == "int_to_bit" else np.array(pw, dtype=np.int64), w_)
+                if w_ > len(pw) and kind == "int_to_bit_p":
+                    return "skip"       # columns beyond the power table stay unassigned (np.empty): unspecified contents
+                return [int(r.shape[1])] + [[int(v) for v in row] for row in r]
             if kind == "sg_decode":
                 return [int(v) for v in sfit._decode(M)]
             return [int(v) for v in gfit._decode(M)]
@@ -253,12 +263,15 @@ def main(tier: str) -> int:
             return "none"
     lean_call = {"bit_to_int": "showV (SG_bit_to_int {m} none)", "bit_to_int_p": "showV (SG_bit_to_int {m} (some {p}))", "gray_to_bit": "showM (GC_gray_to_bit {m})",
                  "bit_to_gray": "showM (GC_bit_to_gray {m})", "sg_decode": "showV (SG_decode {p} {m})", "gc_decode": "showV (GC_decode {p} {m})"}
-    lines = ["import TFV.Generated.Src.SG_decode", "import TFV.Generated.Src.GC_decode", "import TFV.Generated.Src.GC_bit_to_gray", "open TFV TFV.Generated.Src",
+    lean_call["int_to_bit"] = "showM (SG_int_to_bit (fun _ => 0) {xs} none (some {w}))"
+    lean_call["int_to_bit_p"] = "showM (SG_int_to_bit (fun _ => 0) {xs} (some {p}) (some {w}))"
+    lines = ["import TFV.Generated.Src.SG_int_to_bit", "import TFV.Generated.Src.SG_decode", "import TFV.Generated.Src.GC_decode", "import TFV.Generated.Src.GC_bit_to_gray", "open TFV TFV.Generated.Src",
              "def showV : Option (List Int) → String | none => \"none\" | some v => toString v",
              "def showM : Option Np.Mat → String | none => \"none\" | some m => toString (([(m.ncols : Int)] :: m.rows))"]
     for kind, M in cases:
         m = "{ ncols := %d, rows := %s }" % (M.shape[1], "[" + ", ".join("[" + ", ".join(str(int(v)) for v in row) + "]" for row in M) + "]")
-        lines.append("#eval IO.println (" + lean_call[kind].format(m=m, p="[" + ", ".join(map(str, pw)) + "]") + ")")
+        lines.append("#eval IO.println (" + lean_call[kind].format(m=m, p="[" + ", ".join(map(str, pw)) + "]", w=int(M[0, 0]) if kind.startswith("int_to_bit") else 0,
+                                                                  xs="[" + ", ".join(str(int(v)) for v in M[0, 1:]) + "]" if kind.startswith("int_to_bit") else "[]") + ")")
     audit = C.LEAN / "TFV" / "Audit" / "C10_np.lean"
     audit.parent.mkdir(parents=True, exist_ok=True)
     audit.write_text("\n".join(lines) + "\n")
@@ -269,7 +282,9 @@ def main(tier: str) -> int:
     if pr.returncode == 0 and len(got) == len(cases):
         for (kind, M), g in zip(cases, got):
             r = real(kind, M)
-            if kind in ("gray_to_bit", "bit_to_gray") and r != "none":
+            if r == "skip":
+                continue
+            if kind in ("gray_to_bit", "bit_to_gray", "int_to_bit", "int_to_bit_p") and r != "none":
                 r = [[r[0]]] + r[1:]
             want = "none" if r == "none" else str(r).replace(" ", "")
             chk.count("np_kernel_" + kind + ("_error" if want == "none" else ""))
